@@ -50,6 +50,17 @@ class Config:
             'lr': rng.choice([Fraction(1, 10), Fraction(1), [Fraction(1, 10), Fraction(1, 2), Fraction(1, 100)]]),
         }
         self.batch = rng.choice([2, 4, 8])
+        # nested containers: registered names such as '0.2' and '2' (one a dotted suffix of the other)
+        self.nest = rng.random() < 0.25
+        if self.nest:
+            d = [rng.choice([2, 3]) for _ in range(4)]
+            self.arch = [('lin', d[i], d[i + 1], rng.random() < 0.7) for i in range(3)]
+        # second-order data stored in a dtype different from the factors'
+        self.inv32 = rng.random() < 0.25
+        # training loop that keeps the .grad tensors alive between iterations (zero_grad(set_to_none=False))
+        self.keepgrad = rng.random() < 0.3
+        # checkpoints are loaded into a preconditioner constructed with different constant hyper-parameters
+        self.perturb_ctor = rng.random() < 0.5
         self.ops = []
         for k_, v in force.items():
             setattr(self, k_, v)
@@ -66,6 +77,9 @@ class Config:
         return {'world': self.world, 'k': self.k, 'colocate': self.colocate, 'strategy': self.strategy,
                 'method': self.method, 'prediv': self.prediv, 'sym': self.sym, 'cap_mb': self.cap_mb,
                 'accum': self.accum, 'hook': self.hook, 'arch': self.arch, 'batch': self.batch,
+                'nest': getattr(self, 'nest', False), 'inv32': getattr(self, 'inv32', False),
+                'keepgrad': getattr(self, 'keepgrad', False), 'spike': getattr(self, 'spike', None),
+                'perturb_ctor': getattr(self, 'perturb_ctor', False),
                 'hyper': {k: (str(v) if not isinstance(v, list) else [str(x) for x in v]) for k, v in self.hyper.items()},
                 'ops': list(self.ops), 'seed': self.seed, 'sched_seed': getattr(self, 'sched_seed', None),
                 'hyper_changes': [{k: (None if v is None else str(v)) for k, v in ch.items()}
@@ -166,6 +180,8 @@ def build_model(cfg):
         elif a[0] == 'flat':
             mods.append(torch.nn.Flatten())
             cfg._flat = a[1] * sh_ * sw_
+    if getattr(cfg, 'nest', False) and len(mods) >= 5:
+        return torch.nn.Sequential(torch.nn.Sequential(*mods[:3]), *mods[3:]).to(DT)
     return torch.nn.Sequential(*mods).to(DT)
 
 
@@ -276,12 +292,24 @@ def make_prog(cfg):
     def prog(rank):
         w = simdist._tls.world
         model = build_model(cfg)
-        layers = [m for m in model if isinstance(m, (torch.nn.Linear, torch.nn.Conv2d))]
+        layers = [m for m in model.modules() if isinstance(m, (torch.nn.Linear, torch.nn.Conv2d))]
 
         hplog = []
 
-        def mk():
-            H = lambda n: hp_arg(cfg.hyper[n], hplog, n)  # noqa: E731
+        def mk(fresh=False):
+            def H(n):
+                v = hp_arg(cfg.hyper[n], hplog, n)
+                if fresh and getattr(cfg, 'perturb_ctor', False) and not callable(v):
+                    # the preconditioner a checkpoint is loaded into was constructed with OTHER constants (e.g. the
+                    # run had changed them through a scheduler): load_state_dict() restores the checkpointed ones
+                    if n in ('factor_update_steps', 'inv_update_steps'):
+                        return v + 1
+                    if n == 'kl_clip':
+                        return 0.37 if v is None else v * 7.0
+                    if n == 'factor_decay':
+                        return 0.3
+                    return v * 3.0 + 0.01
+                return v
             return KFACPreconditioner(
                 model,
                 factor_update_steps=H('factor_update_steps'), inv_update_steps=H('inv_update_steps'),
@@ -290,7 +318,7 @@ def make_prog(cfg):
                 assignment_strategy=cfg.strategy, colocate_factors=cfg.colocate,
                 compute_eigenvalue_outer_product=cfg.prediv, compute_method=cfg.method,
                 grad_worker_fraction=cfg.k / cfg.world, symmetry_aware=cfg.sym,
-                inv_dtype=DT, update_factors_in_hook=cfg.hook,
+                inv_dtype=(torch.float32 if getattr(cfg, 'inv32', False) else DT), update_factors_in_hook=cfg.hook,
                 grad_scaler=(None if getattr(cfg, 'union_of', None) is None
                              else (lambda: 1.0 / cfg.union_of)))
         out = {'rank': rank, 'ops': [], 'cov': {}, 'raw': {}, 'exc': None}
@@ -340,7 +368,13 @@ def make_prog(cfg):
                     model.train(op == 'f1')
                     x = input_for(cfg, rank, state['pass'])
                     y = model(x)
-                    ((y * y).sum() / y.shape[0]).backward()
+                    loss = (y * y).sum() / y.shape[0]
+                    if op == 'f1' and tuple(getattr(cfg, 'spike', None) or ()) == (rank, state['pass']):
+                        # spike = (rank, pass): the (scaled) loss of that rank overflows in that pass, so its backward
+                        # pass carries inf/nan gradients — on a strict subset of the ranks.  Which collectives are
+                        # issued must not depend on tensor VALUES.
+                        loss = loss * float('inf')
+                    loss.backward()
                     state['pass'] += 1 if op == 'f1' else 0
                     model.train(True)
                 elif op == 's':
@@ -359,7 +393,7 @@ def make_prog(cfg):
                     rec['hpcalls'] = list(hplog)
                     rec['grads'] = [combined_grad(m) for m in layers]
                     rec['steps'] = p.steps
-                    model.zero_grad()
+                    model.zero_grad(set_to_none=not getattr(cfg, 'keepgrad', False))
                 elif op == 'r':
                     p.reset_batch()
                 elif op == 'm':
@@ -388,7 +422,7 @@ def make_prog(cfg):
                         for d in (m._forward_pre_hooks, m._backward_hooks):
                             for k_ in list(d.keys())[1:]:
                                 del d[k_]
-                    p = mk()
+                    p = mk(fresh=True)
                     p.load_state_dict(state['kept'], compute_inverses=(op[2] == '1'))
                     rec['steps'] = p.steps
                     sd2 = p.state_dict()
@@ -402,7 +436,7 @@ def make_prog(cfg):
                         for d in (m._forward_pre_hooks, m._backward_hooks):
                             for k_ in list(d.keys())[1:]:
                                 del d[k_]
-                    p = mk()
+                    p = mk(fresh=True)
                     import warnings
                     sd_before = copy.deepcopy(sd)
                     with warnings.catch_warnings():
@@ -471,13 +505,14 @@ def model_line(cfg, rr):
         else:
             ops.append(op)
     es = 8
+    ies = 4 if getattr(cfg, 'inv32', False) else 8
     return (f'precond world={W} layers=' + ','.join(f'{a}x{g}' for a, g in a0['dims'])
             + ' inva=' + ','.join(map(str, a0['inva'])) + ' invg=' + ','.join(map(str, a0['invg']))
             + ' workers=' + ';'.join(','.join(map(str, x)) for x in workers)
             + ' recv=' + ';'.join(','.join(map(str, x)) for x in recv)
             + ' src=' + ';'.join(','.join(map(str, x)) for x in src)
             + f' bi={int(a0["bi"])} bg={int(a0["bg"])} method={cfg.method} prediv={int(cfg.prediv)}'
-            + f' sym={int(cfg.sym)} bucketed={int(a0["bucketed"])} cap={a0["cap"]} fe={es} ie={es} ge={es}'
+            + f' sym={int(cfg.sym)} bucketed={int(a0["bucketed"])} cap={a0["cap"]} fe={es} ie={ies} ge={es}'
             + f' accum={cfg.accum} hook={int(cfg.hook)} hyper={hyper_str(cfg.hyper)} ops=' + '|'.join(ops))
 
 
@@ -865,6 +900,11 @@ def replay_case(ctx, payload, streams, oracles=()):
     cfg = Config(random.Random(0), world=c['world'])
     for k_ in ('k', 'colocate', 'strategy', 'method', 'prediv', 'sym', 'cap_mb', 'accum', 'hook', 'batch', 'seed'):
         setattr(cfg, k_, c[k_])
+    cfg.nest = c.get('nest', False)
+    cfg.inv32 = c.get('inv32', False)
+    cfg.keepgrad = c.get('keepgrad', False)
+    cfg.spike = tuple(c['spike']) if c.get('spike') else None
+    cfg.perturb_ctor = c.get('perturb_ctor', False)
     cfg.arch = [tuple(tuple(x) if isinstance(x, list) else x for x in a) for a in c['arch']]
     cfg.ops = list(c['ops'])
 
